@@ -61,22 +61,31 @@ Definition read_longstr (s : bytes) : pres bytes :=
 (* read.go readField / readTable / readArray.  Tables recurse on the extracted long string,
    arrays on the view an io.LimitedReader gives (the first `size` bytes of what is left);
    fuel = byte length + 2 suffices (AmqpC02.v). *)
+Inductive ftag := TgBool | TgByte | TgShort | TgInt | TgLong | TgFloat | TgDouble | TgDecimal | TgStr | TgArr
+                | TgTime | TgTable | TgBytes | TgVoid | TgBad.
+Definition ftag_of (t : N) : ftag :=
+  match t with
+  | 116 => TgBool | 98 => TgByte | 115 => TgShort | 73 => TgInt | 108 => TgLong | 102 => TgFloat | 100 => TgDouble
+  | 68 => TgDecimal | 83 => TgStr | 65 => TgArr | 84 => TgTime | 70 => TgTable | 120 => TgBytes | 86 => TgVoid
+  | _ => TgBad
+  end.
+
 Fixpoint read_field (fuel : nat) (s : bytes) {struct fuel} : pres fv :=
   match fuel with
   | O => PFuel
   | S fuel' =>
     let+ (t, r) := pnum 1 s in
-    match t with
-    | 116 (* t *) => let+ (v, r1) := pnum 1 r in POk (FBool (negb (v =? 0))) r1
-    | 98  (* b *) => let+ (v, r1) := pnum 1 r in POk (FByte v) r1
-    | 115 (* s *) => let+ (v, r1) := pnum 2 r in POk (FShort (signed 16 v)) r1
-    | 73  (* I *) => let+ (v, r1) := pnum 4 r in POk (FInt (signed 32 v)) r1
-    | 108 (* l *) => let+ (v, r1) := pnum 8 r in POk (FLong (signed 64 v)) r1
-    | 102 (* f *) => let+ (v, r1) := pnum 4 r in POk (FFloat v) r1
-    | 100 (* d *) => let+ (v, r1) := pnum 8 r in POk (FDouble v) r1
-    | 68  (* D *) => let+ (sc, r1) := pnum 1 r in let+ (v, r2) := pnum 4 r1 in POk (FDecimal sc (signed 32 v)) r2
-    | 83  (* S *) => let+ (str, r1) := read_longstr r in POk (FStr str) r1
-    | 65  (* A *) =>
+    match ftag_of t with
+    | TgBool (* t *) => let+ (v, r1) := pnum 1 r in POk (FBool (negb (v =? 0))) r1
+    | TgByte (* b *) => let+ (v, r1) := pnum 1 r in POk (FByte v) r1
+    | TgShort (* s *) => let+ (v, r1) := pnum 2 r in POk (FShort (signed 16 v)) r1
+    | TgInt (* I *) => let+ (v, r1) := pnum 4 r in POk (FInt (signed 32 v)) r1
+    | TgLong (* l *) => let+ (v, r1) := pnum 8 r in POk (FLong (signed 64 v)) r1
+    | TgFloat (* f *) => let+ (v, r1) := pnum 4 r in POk (FFloat v) r1
+    | TgDouble (* d *) => let+ (v, r1) := pnum 8 r in POk (FDouble v) r1
+    | TgDecimal (* D *) => let+ (sc, r1) := pnum 1 r in let+ (v, r2) := pnum 4 r1 in POk (FDecimal sc (signed 32 v)) r2
+    | TgStr (* S *) => let+ (str, r1) := read_longstr r in POk (FStr str) r1
+    | TgArr (* A *) =>
         let+ (size, r1) := pnum 4 r in
         let k := N.to_nat (N.min size (Blen r1)) in
         match read_array_items fuel' (firstn k r1) with
@@ -85,8 +94,8 @@ Fixpoint read_field (fuel : nat) (s : bytes) {struct fuel} : pres fv :=
         | PPanic p => PPanic p
         | PFuel => PFuel
         end
-    | 84  (* T *) => let+ (v, r1) := pnum 8 r in POk (FTime (clamp_time (signed 64 v))) r1
-    | 70  (* F *) =>
+    | TgTime (* T *) => let+ (v, r1) := pnum 8 r in POk (FTime (clamp_time (signed 64 v))) r1
+    | TgTable (* F *) =>
         let+ (str, r1) := read_longstr r in
         match read_table_entries fuel' str with
         | POk tbl _ => POk (FTable tbl) r1
@@ -94,12 +103,12 @@ Fixpoint read_field (fuel : nat) (s : bytes) {struct fuel} : pres fv :=
         | PPanic p => PPanic p
         | PFuel => PFuel
         end
-    | 120 (* x *) =>
+    | TgBytes (* x *) =>
         let+ (n, r1) := pnum 4 r in
         if (signed 32 n <? 0)%Z then PErr EProto r1          (* fix D18: was makeslice panic *)
         else let+ (v, r2) := ptake n r1 in POk (FBytes v) r2
-    | 86  (* V *) => POk FVoid r
-    | _ => PErr EProto r                                       (* ErrSyntax *)
+    | TgVoid (* V *) => POk FVoid r
+    | TgBad => PErr EProto r                                   (* ErrSyntax *)
     end
   end
 with read_table_entries (fuel : nat) (s : bytes) {struct fuel} : pres table :=
